@@ -115,6 +115,9 @@ func (d *driver) minimise(sc *sim.Scenario) *sim.Scenario {
 		for changed && budget > 0 {
 			changed = false
 			for _, path := range configPaths(cfg, nil) {
+				if protectedPath(cur.Property, path) {
+					continue
+				}
 				cand := cloneAny(cfg).(map[string]any)
 				if !deletePath(cand, path) {
 					continue
@@ -171,6 +174,22 @@ func (d *driver) minimise(sc *sim.Scenario) *sim.Scenario {
 	}
 	fmt.Printf("minimised %s in %d candidate runs: config %d -> %d bytes, tree %d -> %d entries\n", key, tries, len(sc.World.Config), len(cur.World.Config), len(sc.World.Tree), len(cur.World.Tree))
 	return cur
+}
+
+// protectedPath: settings that are preconditions of the property (fixed mtime,
+// fixed rpm build host) must survive minimisation, or the shrunk scenario
+// would "fail" for a reason the property excludes.
+func protectedPath(prop string, path []any) bool {
+	if prop != "C12" && prop != "C07" {
+		return false
+	}
+	if len(path) == 1 && path[0] == "mtime" {
+		return true
+	}
+	if len(path) >= 1 && path[0] == "rpm" && (len(path) == 1 || path[1] == "buildhost") {
+		return true
+	}
+	return false
 }
 
 func mentions(sc *sim.Scenario, path string) bool {
